@@ -32,6 +32,8 @@ SIDECARS = {
     'common_classes': 'mmverif.contracts.utils_spec',
     'tbrmmscore': 'mmverif.contracts.clients_spec',
     'tbrmmdesign': 'mmverif.contracts.clients_spec',
+    'tbrdiagnostics': 'mmverif.contracts.tbrdiag_spec',
+    'tbr_iroas': 'mmverif.contracts.tbrdiag_spec',
 }
 
 CACHE_DIR = os.path.join(common.VERIF, '.cache', 'obl')
@@ -145,7 +147,8 @@ def prove(targets, props=None, timeout_ms=10000, use_cvc5='fallback'):
     if quals is None:
       quals = {'tbrmmscore': getattr(side, 'SCORE_FUNCTIONS', None),
                'tbrmmdesign': getattr(side, 'DESIGN_FUNCTIONS', None),
-               'common_classes': getattr(side, 'CC_FUNCTIONS', None)}.get(
+               'common_classes': getattr(side, 'CC_FUNCTIONS', None),
+               'tbr_iroas': getattr(side, 'IROAS_FUNCTIONS', None)}.get(
                    modname) or side.FUNCTIONS
     for q in quals:
       try:
